@@ -114,6 +114,8 @@ MetaFailing(r, o) ==
     ELSE IF o.nested.media_sheet # o.base \/ o.nested.page_sheet # o.base THEN "RuleAndSheetValidAreConjunctions"
     ELSE IF o.nested.ff_others /\ o.nested.ff_sheet # o.nested.ff_decl THEN "RuleAndSheetValidAreConjunctions"
     ELSE IF ~o.nested.ff_dup_conj THEN "RuleAndSheetValidAreConjunctions"           \* ... shadowed declarations included
+    ELSE IF ~o.nested.page_margin_conj THEN "RuleAndSheetValidAreConjunctions"      \* ... and those inside the margin boxes of an @page rule
+    ELSE IF ~o.nested.restricted_ok THEN "ValidationOnlyAnnotates"                  \* ... also under restricted default profiles, outside a parse
     ELSE IF o.text_validate_on # o.text_validate_off THEN "ValidationOnlyAnnotates"
     ELSE IF o.dom_validate_on # o.dom_validate_off THEN "ValidationOnlyAnnotates"
     ELSE "ok"
